@@ -71,11 +71,89 @@ def cmp_eval(op, a, b2):
     return {"Eq": a == b2, "Ne": a != b2, "Lt": a < b2, "Le": a <= b2, "Gt": a > b2, "Ge": a >= b2}.get(op)
 
 
+def r1_stream_paths(chk, fx, kind, b):
+    """The same decision on explored paths of recv (private helpers, async ones included, are inlined): after a read the path has
+    decided whether the byte count is zero; with zero bytes it returns an error at once; a failed read returns an error."""
+    from vlib import absint as A
+    import re
+    fn = "transport::%s::Receiver::recv" % kind
+
+    def hook(f, args, node, interp):
+        s2 = T.short(f, 2)
+        if s2 in ("AsyncReadExt::read_buf", "AsyncReadExt::read") and len(args) >= 2:
+            interp.trace.append(("read", args[1], node.get("sp")))
+            return ("term", "async-ready", (("sym", "READ"),))
+        if s2 in ("Finder::find", "memmem::find", "FinderRev::rfind"):
+            return ("sym", "FOUND")
+        return None
+    paths = [p for p in A.Interp(fx, hook=hook, crates=("netconf",), max_paths=3000, havoc_loops=True).explore(b.name) if p.end != "abort"]
+    X = "async-ready(«READ»).await→Ok.0"
+    n = 0
+    for p in paths:
+        rd = [i for i, e in enumerate(p.trace) if e[0] == "read"]
+        if not rd:
+            continue
+        n += 1
+        at = loc_of(p.trace[rd[0]][2])
+        is_err = A.is_res(p.ret) and p.ret[2] == "Err" and p.end in ("return", "fallthrough")
+        if p.assume.get("variant:async-ready(«READ»).await") == "Err":
+            chk.instance("C07/R3", "%s: a failed read ends recv with an error (explored path)" % kind, b.name, at, holds=is_err,
+                         key="C07/R3 %s read-error-not-propagated" % fn)
+            continue
+        zero = None
+        if p.assume.get("is:" + X) is not None:
+            zero = p.assume["is:" + X] == 0
+        for k, v in p.assume.items():
+            m = re.fullmatch(r"eq:(.*):(\d+)(?:_[ui]\w+)?", k)     # a constant pattern: `match n { 0 => .. }`
+            if m and m.group(1) == X and isinstance(v, bool):
+                if int(m.group(2)) == 0:
+                    zero = v if zero is None else zero
+                elif v:
+                    zero = False
+                continue
+            m = re.fullmatch(r"\((.*) (Eq|Ne|Lt|Le|Gt|Ge) (.*)\)", k)
+            if not m or not isinstance(v, bool):
+                continue
+            l, op, r = m.groups()
+            if l == X and r.isdigit():
+                t0 = cmp_eval(op, 0, int(r))
+                allv = all(cmp_eval(op, c, int(r)) == t0 for c in (1, 2, 1 << 20))
+                some = {cmp_eval(op, c, int(r)) for c in (1, 2, 1 << 20)}
+            elif r == X and l.isdigit():
+                t0 = cmp_eval(op, int(l), 0)
+                some = {cmp_eval(op, int(l), c) for c in (1, 2, 1 << 20)}
+            else:
+                continue
+            if some == {not t0}:
+                # the comparison separates zero from every other count
+                zero = (v == t0) if zero is None else zero
+        if zero is None:
+            chk.instance("C07/R1", "%s: byte count returned by the read is compared with zero" % kind, b.name, at, holds=p.end != "iter-end",
+                         key="C07/R1 %s byte-count-unchecked" % fn,
+                         detail="at end of stream read_buf returns Ok(0) for ever: the loop spins and never returns an error")
+            continue
+        if not zero:
+            continue
+        chk.instance("C07/R1", "%s: a zero-byte read (end of stream) leaves the receive loop (explored path)" % kind, b.name, at, holds=p.end in ("return", "fallthrough"),
+                     key="C07/R1 %s eof-stays-in-loop" % fn)
+        if p.end in ("return", "fallthrough"):
+            chk.instance("C07/R1", "%s: end of stream is reported as an error, not as a message (explored path)" % kind, b.name, at, holds=is_err,
+                         key="C07/R1 %s eof-reported-as-ok" % fn)
+            waits = [e for e in p.trace[rd[-1]:] if e[0] == "await"]
+            chk.instance("C07/R1", "%s: end of stream is reported without waiting for anything else (explored path)" % kind, b.name, at, holds=len(waits) <= 1,
+                         key="C07/R1 %s eof-path-awaits" % fn,
+                         detail=None if len(waits) <= 1 else "a suspension point lies between the zero-byte read and the error return")
+    chk.floor("C07/R1 %s explored paths with a read" % kind, n, 2)
+
+
 def r1_stream(chk, fx, kind, b):
     chk.analysed(b.name)
     fn = "transport::%s::Receiver::recv" % kind
+    r1_stream_paths(chk, fx, kind, b)
     reads = b.calls_to("AsyncReadExt::read_buf", "AsyncReadExt::read", user_only=True)
-    chk.floor("C07/R1 %s read sites" % kind, len(reads), 1)
+    if not reads:
+        chk.instance("C07/R1", "%s: the read is made by a helper of recv: decided on the explored paths alone" % kind, b.name, None, holds=True)
+        return
     chk.call_sites += len(reads)
     loops = [b.natural_loop(h) for h in b.loop_heads()]
     for r in reads:
